@@ -68,6 +68,35 @@ theorem cancel_outcome (s s' : St) (c : Nat) (h : step s (.cCancelRec c) = some 
   · injection h with h; subst h; simp
   · simp at h
 
+/-- A call whose own frame was refused for its method name (`cEnc c false`) and whose
+    context ended before it looked at the error (`cSel1Ctx`) arrives in `handleCancel`
+    (`.cEnc`); the cancellation may be refused by `encodeFrame` too.  From there the run
+    `cCancelEncFail c ; cPoll c ; cCancelRec c` is enabled step by step — it waits for
+    nobody: no hand-off, no writer — the poll drains the error out of the result channel,
+    nothing is written, and the call returns the context's error. -/
+theorem cancel_after_refused_call_returns_ctx (s : St) (c : Nat) (h : (s.callers c).pc = .cEnc) :
+    ∃ s1 s2 s3,
+      step s (.cCancelEncFail c) = some s1 ∧ (s1.callers c).pc = .cPoll s.nextSend ∧
+      step s1 (.cPoll c) = some s2 ∧ (s2.callers c).pc = .cRec ∧ (s2.sends s.nextSend).slot = none ∧
+      step s2 (.cCancelRec c) = some s3 ∧ (s3.callers c).pc = .fin (.err .ctx) ∧
+      s3.wlog = s.wlog ∧ s3.w = s.w ∧ s3.pending = s.pending := by
+  -- step 1: the refused cancellation
+  have e1 : ∃ s1, step s (.cCancelEncFail c) = some s1 ∧ (s1.callers c).pc = .cPoll s.nextSend ∧
+      (s1.sends s.nextSend).slot = some .toobig ∧ s1.wlog = s.wlog ∧ s1.w = s.w ∧ s1.pending = s.pending := by
+    simp [step, h]
+  obtain ⟨s1, h1, p1, sl1, a1, b1, c1⟩ := e1
+  -- step 2: the non-blocking receive finds the error and drains it
+  have e2 : ∃ s2, step s1 (.cPoll c) = some s2 ∧ (s2.callers c).pc = .cRec ∧
+      (s2.sends s.nextSend).slot = none ∧ s2.wlog = s1.wlog ∧ s2.w = s1.w ∧ s2.pending = s1.pending := by
+    simp [step, p1, sl1]
+  obtain ⟨s2, h2, p2, sl2, a2, b2, c2⟩ := e2
+  -- step 3: the cancel record; the call returns the context's error
+  have e3 : ∃ s3, step s2 (.cCancelRec c) = some s3 ∧ (s3.callers c).pc = .fin (.err .ctx) ∧
+      s3.wlog = s2.wlog ∧ s3.w = s2.w ∧ s3.pending = s2.pending := by
+    simp [step, p2]
+  obtain ⟨s3, h3, p3, a3, b3, c3⟩ := e3
+  exact ⟨s1, s2, s3, h1, p1, h2, p2, sl2, h3, p3, by rw [a3, a2, a1], by rw [b3, b2, b1], by rw [c3, c2, c1]⟩
+
 /-- The cancellation frame carries the seqno of its call and follows the call
     frame on the wire (C13.cancel_after_call). -/
 theorem cancel_follows_call (s : St) (hr : Reachable s) (y : Nat) (hy : y ∈ s.wlog)
